@@ -608,6 +608,16 @@ class Models(object):
             setattr(ns, k, (lambda T: lambda a, b: I.binop(T(), a, b))(T))
         for k, T in cmps.items():
             setattr(ns, k, (lambda T: lambda a, b: I.compare(T(), a, b))(T))
+        # in-place forms: the operator module returns the result (an array is updated in place, as by the statement)
+        for k, T in ops.items():
+            def iop(a, b, T=T):
+                if isinstance(a, Arr) and T in (_ast.Add, _ast.Sub, _ast.Mult, _ast.Div, _ast.FloorDiv, _ast.Pow, _ast.Mod):
+                    name = {_ast.Add: '__iadd__', _ast.Sub: '__isub__', _ast.Mult: '__imul__', _ast.Div: '__itruediv__',
+                            _ast.FloorDiv: '__ifloordiv__', _ast.Pow: '__ipow__', _ast.Mod: '__imod__'}[T]
+                    if hasattr(a, name):
+                        return getattr(a, name)(b)
+                return I.binop(T(), a, b)
+            setattr(ns, 'i' + k.rstrip('_'), iop)
         ns.neg = lambda a: I.binop(_ast.Sub(), 0, a)
         ns.pos = lambda a: a
         ns.abs = lambda a: I.builtins['abs'](a)
